@@ -40,10 +40,16 @@ def main():
 
         touches_brownian = "_brownian" in open(a.patch).read()
 
+        patch_text = open(a.patch).read()
+        touches_driver = any(d in patch_text for d in ("_core/base_solver.py", "_core/methods/", "_core/interp.py", "_brownian/derived.py"))
+
         def run_one(pid, replay):
             env = dict(os.environ)
             if replay:
-                env["TSVERIF_REPLAY"] = replay
+                if replay == "skip":
+                    env["TSVERIF_REPLAY"] = replay
+                if not touches_driver:
+                    env["TSVERIF_SOLVER_REPLAY"] = "skip"
             r = subprocess.run([PY, "-m", "tsverif.check", pid, "--root", tmp, "--no-write"], cwd=VERIF,
                                capture_output=True, text=True, env=env)
             viol = {}
@@ -81,7 +87,7 @@ def main():
             subprocess.check_call(["patch", "-p1", "--fuzz=3", "--no-backup-if-mismatch", "-s", "-i", os.path.abspath(a.patch)], cwd=tmp)
             res["applied_with_fuzz"] = True
         # the replay rules read torchsde/_brownian only: a patch that leaves it alone leaves their verdict alone
-        for pid, (code, viol, errors) in run_checks(None if touches_brownian else "skip").items():
+        for pid, (code, viol, errors) in run_checks("patched" if touches_brownian else "skip").items():
             new = {k: v for k, v in viol.items() if k not in base[pid][1]}
             res["checks"][pid] = {"exit": 1 if new else (2 if code == 2 and base[pid][0] != 2 else 0),
                                   "rules": sorted(set(new.values())), "errors": errors,
